@@ -138,6 +138,34 @@ func (s *State) assume(t *Term) {
 			s.addSubst(a, b)
 		}
 	}
+	// x == c for an integer variable x: substitute
+	if t.Op == "=" && len(t.Args) == 2 && t.Args[0].Sort == SInt && t.Args[1].IsConst() && t.Args[1].Val.Sign() == 0 {
+		p := polyOf(t.Args[0])
+		if len(p.t) <= 2 {
+			var v *Term
+			var coef, c0 *big.Int
+			c0 = big0
+			okShape := true
+			for k, e := range p.t {
+				if k == "" {
+					c0 = e.c
+					continue
+				}
+				if v == nil && len(e.m.f) == 1 && e.m.f[0].exp.Cmp(big1) == 0 && e.m.f[0].atom.Op == "var" {
+					v, coef = e.m.f[0].atom, e.c
+				} else {
+					okShape = false
+				}
+			}
+			if okShape && v != nil && coef.CmpAbs(big1) == 0 {
+				val := new(big.Int).Neg(c0)
+				if coef.Sign() < 0 {
+					val = c0
+				}
+				s.addSubst(v, mkInt(val))
+			}
+		}
+	}
 	s.hypKeys[k] = true
 	s.hyps = append(s.hyps, t)
 }
